@@ -468,15 +468,15 @@ func genAPIOp(r *vh.RNG, k *kase, w *world, emit func(string), outstanding []com
 	info := k.reach(k.roots)
 	parent := zero
 	if r.Chance(50) {
-		if r.Chance(20) || len(outstanding) == 0 {
-			parent = pick() // most likely not a pending request: the real code panics
-		} else {
-			cand := outstanding[r.Intn(len(outstanding))]
-			// the model keys parents by hash where Go holds pointers; they agree unless a raw request is given
-			// children, which no caller in the repository does
-			if info.roles[cand]&roleRaw == 0 && !w.rawAdded[cand] {
-				parent = cand
-			}
+		cand := pick() // most likely not a pending request: the real code panics
+		if !r.Chance(20) && len(outstanding) > 0 {
+			cand = outstanding[r.Intn(len(outstanding))]
+		}
+		// the model keys parents by hash where Go holds pointers; they agree unless a raw request is given
+		// children (Process commits a raw request without looking at deps, leaving a dangling parent pointer),
+		// which no caller in the repository does
+		if info.roles[cand]&roleRaw == 0 && !w.rawAdded[cand] {
+			parent = cand
 		}
 	}
 	switch r.Intn(4) {
